@@ -121,6 +121,9 @@ def _(value: Flag):
 
 def sort_set_values(set_values):
     is_sorted = False
+    # a deterministic input order: sorted() keeps the order of elements which
+    # are only partially ordered (like frozensets), and sets iterate hash dependent
+    set_values = sorted(set_values, key=repr)
     try:
         set_values = sorted(set_values)
         is_sorted = True
